@@ -211,6 +211,38 @@ def run(prop: str, tier: str, seed: int) -> int:
         cases.append({"id": f"rand-{k}", "cfg": tp.cfg_of(inst), "ub": small(eo.ub), "plans": plans})
         rep.family("random-plans", len(plans), len(plans))
         rep.nontrivial += len(plans)
+    # adversarial: let a local search MINIMISE the real error count (game-permutation encoding); whatever it
+    # reaches - in particular every plan the code calls error-free - is judged by the TLC oracle
+    from moptipy.algorithms.so.rls import RLS
+    from moptipy.api.execution import Execution
+    from moptipy.operators.permutations.op0_shuffle import Op0Shuffle
+    from moptipy.operators.permutations.op1_swap2 import Op1Swap2
+    n_zero = 0
+    for k in range({"quick": 10, "thorough": 80}[tier]):
+        n = rng.choice([4, 6, 6, 8])
+        rounds = rng.choice([1, 2])
+        ll = rounds * n - 1
+        c = {} if rng.random() < 0.5 else {"hmin": rng.choice([1, 2]), "hmax": 3, "amin": rng.choice([1, 2]), "amax": 3,
+                                          "smin": rng.choice([0, 1, 2]), "smax": ll}
+        inst = tp.make_instance(n, rounds, c)
+        enc = tp.mods()["GameEncoding"](inst)
+        space = enc.search_space()
+        obj = tp.mods()["Errors"](inst)
+        ex = Execution().set_search_space(space).set_solution_space(tp.mods()["GamePlanSpace"](inst)) \
+            .set_encoding(enc).set_objective(obj).set_algorithm(RLS(Op0Shuffle(space), Op1Swap2())) \
+            .set_max_fes({"quick": 4000, "thorough": 20000}[tier]).set_rand_seed(rng.randrange(1, 1 << 40))
+        with ex.execute() as proc:
+            y = ex._solution_space.create()
+            proc.get_copy_of_best_y(y)
+        rows = [[int(v) for v in r] for r in np.asarray(y).tolist()]
+        eo = ErrObj(inst)
+        e = eo.eval(rows)
+        n_zero += 1 if e == 0 else 0
+        cases.append({"id": f"search-{k}", "cfg": tp.cfg_of(inst), "ub": small(eo.ub),
+                      "plans": [{"plan": rows, "errors": small(e)}]})
+        rep.family("minimised-by-local-search", 1, 1)
+        rep.nontrivial += 1
+    rep.notes.append(f"local search reached {n_zero} plans that the real counter calls error-free")
     # long seasons: day indices beyond the int8 range (scratch arrays must be wide enough)
     n_long = {"quick": 24, "thorough": 160}[tier]
     for k in range(n_long):
